@@ -140,3 +140,16 @@ Qed.
 Print Assumptions faithful_nauty_sel.
 Print Assumptions onto_nauty_sel.
 Print Assumptions nlabel_sel_default.
+
+(* known finding: with no node attribute selected, graph_signature hashes "||" for the empty graph and for a single node -
+   equal signatures although the graphs are not isomorphic (whatever one selects, an injection cannot map one node to none) *)
+Definition one_node : graph := LG [(1%N, NA [67%N] false 0 0 None)] [].
+Theorem empty_selection_n0_n1 :
+  graph_sig_label_sel [] [] (LG [] []) = graph_sig_label_sel [] [] one_node /\ length (gnodes (LG [] [] : graph)) <> length (gnodes one_node)
+  /\ graph_sig_label_sel NA4 EA2 (LG [] []) <> graph_sig_label_sel NA4 EA2 one_node.
+Proof. split; [vm_compute; reflexivity|]. split; [discriminate|vm_compute; discriminate]. Qed.
+Theorem empty_selection_refuted : exists g h : graph,
+  graph_sig_label_sel [] [] g = graph_sig_label_sel [] [] h /\ length (gnodes g) <> length (gnodes h)
+  /\ graph_sig_label_sel NA4 EA2 g <> graph_sig_label_sel NA4 EA2 h.
+Proof. exists (LG [] []), one_node. exact empty_selection_n0_n1. Qed.
+Print Assumptions empty_selection_n0_n1.
